@@ -91,6 +91,7 @@ def _run_shard(k):
     n = len(cmds)
     results = {}
     crashes = {}
+    crash_run = {}
     probe_box = [None]
     start = 0
     restarts = 0
@@ -100,7 +101,11 @@ def _run_shard(k):
     while start < n:
         outp = os.path.join(tmp, 'shard%d.out.%d' % (k, restarts))
         errp = os.path.join(tmp, 'shard%d.err.%d' % (k, restarts))
-        argv = TOOLS[tool] + g['prefix'] + [g['binary'], script, str(start)]
+        if tool and tool.startswith('miri:'):
+            argv = build.miri_argv(tool[5:]) + [script, str(start)]
+            env.update(build.miri_env(tool[5:]))
+        else:
+            argv = TOOLS[tool] + g['prefix'] + [g['binary'], script, str(start)]
         mem = g.get('mem')
 
         def limits():
@@ -137,6 +142,7 @@ def _run_shard(k):
         if begun is not None and begun not in results:
             # the process died inside command `begun`
             crashes[begun] = rc
+            crash_run[begun] = restarts
             start = begun + 1
             restarts += 1
             if restarts > 40:
@@ -162,7 +168,18 @@ def _run_shard(k):
             props = {'C14', 'C15'}
             if c.prop:
                 props.add(c.prop)
-            pr = Problem(props, 'the process was killed while executing the call (%s)' % signame, '')
+            detail = ''
+            what = 'the process was killed while executing the call (%s)' % signame
+            if tool and tool.startswith('miri:'):
+                try:
+                    etxt = open(os.path.join(tmp, 'shard%d.err.%d' % (k, crash_run[i]))).read()
+                except (OSError, KeyError):
+                    etxt = ''
+                if 'Undefined Behavior' in etxt or 'error:' in etxt:
+                    what = 'Miri reported an error while executing the call'
+                    ix = etxt.find('error')
+                    detail = etxt[ix:ix + 700]
+            pr = Problem(props, what, detail)
             pr.cmd = c.line
             pr.variant = g['variant'] + ('+' + tool if tool else '')
             sr.problems.append(pr)
@@ -203,14 +220,14 @@ def _run_shard(k):
     return sr
 
 
-def run_stage(variant, groups, tool=None, prefix=None, env=None, timeout=600, jobs=None, binary=None, mem='default', keep_raw=False):
+def run_stage(variant, groups, tool=None, prefix=None, env=None, timeout=600, jobs=None, binary=None, mem='default', keep_raw=False, shard_min=200):
     """groups: list of lists of Cmd (each group keeps its order and shares one process).
     Returns StageResult."""
     t0 = time.time()
     jobs = jobs or NCPU
     binary = binary or build.ensure_built(variant)
     total = sum(len(g) for g in groups)
-    nsh = max(1, min(jobs, (total + 199) // 200))
+    nsh = max(1, min(jobs, (total + shard_min - 1) // shard_min))
     shards = [[] for _ in range(nsh)]
     # greedy balance by command count, keep groups whole
     sizes = [0] * nsh
